@@ -157,7 +157,7 @@ Qed.
 Lemma pairing_appends c : forall locals s,
   let s' := fst (for_each locals (fun l => with_state (find_pair l c) (fun op => match op with Some _ => nop | None => add_pair l c end)) s) in
   s_selected s' = s_selected s /\
-  exists new, s_checklist s' = s_checklist s ++ new /\ Forall (fun p => p_rem p = c) new.
+  exists new, s_checklist s' = s_checklist s ++ new /\ Forall (fun p => exists id l ctl, p = new_pair id l c ctl) new.
 Proof.
   induction locals as [|l t IH]; intros s; cbn [for_each].
   - split; [reflexivity|]. exists []. rewrite app_nil_r. split; [reflexivity|constructor].
@@ -166,7 +166,7 @@ Proof.
     + destruct (IH (fst (add_pair l c s))) as [E1 [new [E2 HF]]]. cbv zeta. rewrite E1, E2. split; [reflexivity|].
       unfold add_pair. rewrite modify_fst. cbn [s_checklist set_s_next_pair set_s_checklist].
       exists (new_pair (s_next_pair s + 1) l c (s_ctl s) :: new). rewrite <- app_assoc. split; [reflexivity|].
-      constructor; [reflexivity|exact HF].
+      constructor; [eexists; eexists; eexists; reflexivity|exact HF].
 Qed.
 
 Lemma K2_refl c l : K2 c l l.
@@ -174,7 +174,7 @@ Proof. unfold K2. induction l; constructor; [apply kept_refl|assumption]. Qed.
 
 Definition supersede_result (c : cand) (s s' : state) : Prop :=
   s_selected s' = s_selected s /\
-  exists keptl new, s_checklist s' = keptl ++ new /\ Forall2 (kept c) (s_checklist s) keptl /\ Forall (fun p => p_rem p = c) new.
+  exists keptl new, s_checklist s' = keptl ++ new /\ Forall2 (kept c) (s_checklist s) keptl /\ Forall (fun p => exists id l ctl, p = new_pair id l c ctl) new.
 
 Lemma supersede_result_same c s s' :
   s_selected s' = s_selected s -> s_checklist s' = s_checklist s -> supersede_result c s s'.
